@@ -601,7 +601,7 @@ class Run:
             cs, ns = [1, 2, 5][s % 3], [4, 3][s % 2]
             return [("hotp_core", "hotp", [rot(0) * 10 + 1 + s % 7], HOTP_CORE, 6, 5),
                     # classes 2 (32-bit word wrap) and 3 (2^64 wrap) always, two of the others by the seed; S6 brings in FF..FF
-                    ("hotp_full", "hotp", [rot(c) * 10 + c for c in sorted({2, 3, [1, 4, 5, 7][s % 4], [4, 5, 7, 1][(s // 4) % 4]})], HOTP_FULL, 3, 4),
+                    ("hotp_full", "hotp", [rot(c) * 10 + c for c in sorted({2, 3, [1, 4, 5, 7][s % 4], [1, 4, 5, 7][(s % 4 + 1 + (s // 4) % 3) % 4]})], HOTP_FULL, 3, 4),
                     ("totp", "totp", [rot(c) * 10 + c for c in range(1, 6)], TOTP_FULL, 3, 3),
                     ("ocra", "ocra", [cs * 10 + 1 + (s // 3) % 7, ns * 10 + 1], OCRA_CORE, 4, 4)]
         return [("hotp_core", "hotp", [rot(0) * 10 + 2, rot(1) * 10 + 3], HOTP_CORE, 7, 8),
@@ -857,7 +857,9 @@ class Run:
                     a[i][kind][-1] ^= 1
                 rows, at = cut(a, i)
                 tests.append((kind, rows, at))
-            i = find(lambda r: r["e"] == "HotpStepS")
+            # a dropped StepS: the next call (one that needs the counter) is then not enabled
+            i = next((i for i in range(len(rand_rows) - 1) if rand_rows[i]["e"] == "HotpStepS" and rand_rows[i - 1]["e"] == "HotpStart"
+                      and rand_rows[i + 1]["e"] in ("HotpStepR", "HotpStepV", "HotpStepG")), None)
             if i is not None:
                 a = json.loads(json.dumps(rand_rows)); rows, at = cut(a, i + 1); del rows[at - 2]
                 tests.append(("dropped", rows, at - 1))
